@@ -511,6 +511,135 @@ class JsonStr:
         return f'JsonStr({self.doc!r})'
 
 
+class JsonText:
+    """JSON text assembled by hand: literal pieces interleaved with documents produced by serde_json::to_string.
+    It is parsed (documented JSON grammar, embedded documents as atomic values) when it is decoded or compared."""
+
+    def __init__(self, pieces):
+        out = []
+        for p in pieces:
+            if isinstance(p, JsonText):
+                out.extend(p.pieces)
+            elif isinstance(p, str) and out and isinstance(out[-1], str):
+                out[-1] += p
+            elif p != '':
+                out.append(p)
+        self.pieces = out
+
+    def len_model(self, I):
+        n = 0
+        for p in self.pieces:
+            n = n + (len(p.encode()) if isinstance(p, str) else p.length)
+        return n
+
+    def clone_model(self, I):
+        return self
+
+    def parse(self):
+        """-> JsonStr, or raises Unsupported when the text is not one well-formed JSON value"""
+        toks = []
+        for p in self.pieces:
+            if not isinstance(p, str):
+                toks.append(('doc', p))
+                continue
+            i = 0
+            while i < len(p):
+                ch = p[i]
+                if ch in ' \t\r\n':
+                    i += 1
+                elif ch in '{}[],:':
+                    toks.append((ch, None))
+                    i += 1
+                elif ch == '"':
+                    j = i + 1
+                    while j < len(p) and p[j] != '"':
+                        if p[j] == '\\':
+                            raise Unsupported('escape in hand-written JSON text')
+                        j += 1
+                    if j >= len(p):
+                        raise Unsupported('unterminated string in hand-written JSON text')
+                    toks.append(('s', p[i + 1:j]))
+                    i = j + 1
+                elif p.startswith('null', i):
+                    toks.append(('null', None))
+                    i += 4
+                elif p.startswith('true', i) or p.startswith('false', i):
+                    t = p.startswith('true', i)
+                    toks.append(('bool', t))
+                    i += 4 if t else 5
+                else:
+                    raise Unsupported('token in hand-written JSON text: ' + p[i:i + 12])
+        pos = [0]
+
+        def peek():
+            return toks[pos[0]] if pos[0] < len(toks) else (None, None)
+
+        def take(kind=None):
+            t = peek()
+            if t[0] is None or (kind is not None and t[0] != kind):
+                raise Unsupported('malformed hand-written JSON text')
+            pos[0] += 1
+            return t
+
+        def value():
+            k, v = take()
+            if k == 'doc':
+                return v.doc, v.src
+            if k == 's':
+                return ('str', v), v
+            if k == 'null':
+                return ('null',), None
+            if k == 'bool':
+                return ('bool', v), v
+            if k == '[':
+                docs, srcs = [], []
+                if peek()[0] == ']':
+                    take()
+                    return ('arr', docs), srcs
+                while True:
+                    d, s = value()
+                    docs.append(d)
+                    srcs.append(s)
+                    if peek()[0] == ',':
+                        take()
+                        continue
+                    take(']')
+                    return ('arr', docs), srcs
+            if k == '{':
+                ents, srcs = [], {}
+                if peek()[0] == '}':
+                    take()
+                    return ('obj', ents), srcs
+                while True:
+                    key = take('s')[1]
+                    take(':')
+                    d, s = value()
+                    ents.append((key, d))
+                    srcs[key] = s
+                    if peek()[0] == ',':
+                        take()
+                        continue
+                    take('}')
+                    return ('obj', ents), srcs
+            raise Unsupported('malformed hand-written JSON text')
+        doc, src = value()
+        if pos[0] != len(toks):
+            raise Unsupported('trailing text after the JSON value')
+        js = JsonStr(doc, self.len_model(None))
+        # source value for the injective-codec shortcut: a version document {"operations":[op,...]}
+        if isinstance(src, dict) and list(src.keys()) == ['operations'] and isinstance(src['operations'], list) \
+                and all(isinstance(x, Adt) for x in src['operations']):
+            js.src = Adt('Version', 0, [PyVec([clone_val(x) for x in src['operations']])])
+        return js
+
+    def __repr__(self):
+        return f'JsonText({self.pieces!r})'
+
+
+def as_json_str(s):
+    return s.parse() if isinstance(s, JsonText) else s
+
+
 def doc_eq(a, b):
     if a[0] != b[0]:
         return False
@@ -595,6 +724,7 @@ def m_json_from_str(I, path, args):
     s = deref(args[0])
     if isinstance(s, Bytes) and s.tag in ('json', 'utf8'):
         s = s.payload
+    s = as_json_str(s)
     if not isinstance(s, JsonStr):
         raise Unsupported('serde_json::from_str of ' + repr(s))
     ga = generic_args(path)
